@@ -312,9 +312,10 @@ def classify_e2e(p):
             if all(complete) and n < 2 * v[5] + v[6]:
                 return "finish_flush_stream_never_finalized"
             return None
-        if c[7] > c[9] > c[8] and not all(complete):
-            # a stream wants more than the whole connection window while its stream window is
-            # smaller: BlockedOnConnectionWindow masks the stream credit that arrives later
+        wanted = max(sum(f[2] for f in flows if f[1] == d) for d in (0, 1))
+        if c[9] > c[8] and (c[7] > c[9] or wanted > c[9]) and not all(complete):
+            # one sender's streams want more than the whole connection window while the stream window
+            # is smaller: BlockedOnConnectionWindow masks the stream credit that arrives later
             return "both_windows_blocked_state_masks_stream_credit"
         return None
     except Exception:
